@@ -11,6 +11,7 @@ import (
 	"encoding/json"
 	"fmt"
 	"os"
+	"runtime/debug"
 	"strconv"
 
 	"github.com/rs/zerolog"
@@ -101,6 +102,8 @@ func main() {
 		os.Stderr = dn
 	}
 	zerolog.SetGlobalLevel(zerolog.TraceLevel)
+	// reading a row that points into an unmapped region must be an observable panic, not a crash
+	debug.SetPanicOnFault(true)
 	prop, tier := os.Args[1], os.Args[2]
 	seed, _ := strconv.ParseInt(os.Args[3], 10, 64)
 	f, err := os.Create(os.Args[4])
